@@ -27,12 +27,20 @@ def _fenced(dialect):
     return tm
 
 
+def _was_reset(dialect):
+    """a matcher as the parser leaves it before every document: reset() was called (twice, once after a fence)"""
+    tm = _fenced(dialect)
+    tm.reset()
+    tm.reset()
+    return tm
+
+
 def _kw_chunk(cases):
     bad = []
     tms = {}
     for c in cases:
-        for state in ("fresh", "after an opening fence"):
-            tm = tms.setdefault((c["d"], state), GherkinInMarkdownTokenMatcher(c["d"]) if state == "fresh" else _fenced(c["d"]))
+        for state in ("fresh", "after an opening fence", "after reset()"):
+            tm = tms.setdefault((c["d"], state), GherkinInMarkdownTokenMatcher(c["d"]) if state == "fresh" else _fenced(c["d"]) if state == "after an opening fence" else _was_reset(c["d"]))
             line = uncp(c["line"])
             if c["ok"]:
                 t = _tok(line)
